@@ -89,7 +89,7 @@ func (s *Shard) Begin(c *Case) {
 func (s *Shard) Tick() { atomic.AddInt64(&s.progress, 1) }
 
 // HangSeconds is far above any legitimate case duration (micro- to milliseconds).
-var HangSeconds = 60
+var HangSeconds = 120
 
 // Take returns true when the next unit of work belongs to this shard.
 func (s *Shard) Take() bool {
